@@ -74,10 +74,15 @@ def main(argv=None):
             st["fixtures"] = {k: v for k, v in fx_.items() if k != "failed"}
             st["failed"] = st["failed"] + fx_["failed"]
             if st["failed"]:
+                # still write evidence so the reader sees what happened; a violation of the tree itself wins over a self-test failure
+                # (a bank mutant that re-breaks an already broken construct cannot produce a *new* report, which is not blindness)
+                rc = finish(run, seed, selftest=st)
+                if rc == 1:
+                    for f in st["failed"]:
+                        print(f"NOTE selftest (not judged on a violating tree) {f}")
+                    return 1
                 for f in st["failed"]:
                     print(f"ANALYSIS-ERROR selftest {f}")
-                # still write evidence so the reader sees what happened
-                finish(run, seed, selftest=st)
                 return 2
         return finish(run, seed, selftest=st)
     except Exception as e:  # noqa
